@@ -60,6 +60,11 @@ def run(ctx):
     ctx.rule("L4", "slave-driven channels are exactly {b, r} in connect_axi, layout_flat and connect_to_pads", min_sites=3)
     ctx.rule("L5", "routing follows the address: while locked, the request-channel mask must depend on the live decode", min_sites=2)
 
+    ctx.rule("L6", "crossbar access matrix is indexed [master][slave]: decoders take rows, arbiters take columns (non-square "
+                   "crossbars keep every master and every slave connected)", min_sites=8)
+    from ..rules_xbar import crossbar_shape
+    crossbar_shape(ctx, "L6", AL, "AXILiteCrossbar", "AXILiteDecoder", "AXILiteArbiter")
+    crossbar_shape(ctx, "L6", AF, "AXICrossbar", "AXIDecoder", "AXIArbiter")
     for rel, ccls, acls, dcls, full in FAMILIES:
         # ============================================================ L1
         from ..rules_stream import s_range
